@@ -65,6 +65,9 @@ def route_distinguisher(tokeniser: Any) -> RouteDistinguisher:
         prefix = data[:separator]
         suffix = int(data[separator + 1 :])
 
+    if suffix < 0:
+        raise ValueError(f'invalid route-distinguisher {data}')
+
     if '.' in prefix:
         data_list: list[bytes] = [bytes([0, 1])]
         data_list.extend([bytes([int(_)]) for _ in prefix.split('.')])
@@ -72,6 +75,8 @@ def route_distinguisher(tokeniser: Any) -> RouteDistinguisher:
         rtd = b''.join(data_list)
     else:
         number = int(prefix)
+        if number < 0:
+            raise ValueError(f'invalid route-distinguisher {data}')
         if number < pow(2, 16) and suffix < pow(2, 32):
             rtd = bytes([0, 0]) + pack('!H', number) + pack('!L', suffix)
         elif number < pow(2, 32) and suffix < pow(2, 16):
